@@ -541,9 +541,8 @@ Section Blocks.
     rewrite error_nonzero_spec.
     destruct (forallb (N.eqb 0) error') eqn:Hzero; simpl.
     - specialize (Hz eq_refl).
-      destruct (i' <? length s) eqn:Hi'.
-      + apply Nat.ltb_lt in Hi'.
-        destruct (generic_into_correct A (skipn i' s) (skipn i' dst')) as [Hg _].
+      destruct (kp_tail_always kp || (i' <? length s))%bool eqn:Hi'.
+      + destruct (generic_into_correct A (skipn i' s) (skipn i' dst')) as [Hg _].
         specialize (Hg ltac:(rewrite !skipn_length; lia)).
         assert (Hsplit : enc_tab A s = enc_tab A (firstn i' s ++ skipn i' s))
           by (rewrite firstn_skipn; reflexivity).
@@ -551,7 +550,8 @@ Section Blocks.
         destruct (enc_tab A (skipn i' s)) as [t|e| |]; try contradiction.
         * rewrite Hg. reflexivity.
         * simpl. exact Hg.
-      + apply Nat.ltb_ge in Hi'. assert (i' = length s) by lia. subst i'.
+      + apply orb_false_iff in Hi'. destruct Hi' as [_ Hi'].
+        apply Nat.ltb_ge in Hi'. assert (i' = length s) by lia. subst i'.
         rewrite firstn_all in Hz. rewrite <- Hdst in Hz. rewrite firstn_all in Hz. rewrite Hz. reflexivity.
     - destruct (Hnz eq_refl) as [e He]. rewrite rescan_enc_tab, He. reflexivity.
   Qed.
